@@ -1460,7 +1460,21 @@ impl Property for C06 {
     }
     fn gen(&self, batch: &str, index: u64, seed: u64) -> Case {
         if batch == "many-rows-huge" {
+            // a forest whose answers differ from row to row (several trees, no dominating class, enough rows): otherwise
+            // an answer that belongs to another row of the call could not be told from the right one
             let mut c = gen_case(if index % 2 == 0 { "twins-clf" } else { "twins-reg" }, index, seed);
+            for j in 1..200u64 {
+                let lively = c.params.n_trees >= 8 && c.x.len() >= 24 && {
+                    let mut u = c.y.clone();
+                    u.sort_by(|a, b| a.partial_cmp(b).unwrap());
+                    u.dedup();
+                    u.iter().all(|l| c.y.iter().filter(|v| *v == l).count() * 5 >= c.y.len() || c.task == "reg")
+                };
+                if lively {
+                    break;
+                }
+                c = gen_case(if index % 2 == 0 { "twins-clf" } else { "twins-reg" }, index, seed ^ j.wrapping_mul(0x9E37_79B9_7F4A_7C15));
+            }
             c.many = [300_000usize, 600_000, 1_100_000, 4_200_000][(index % 4) as usize];
             c.refit_same_thread = false;
             c.kind = format!("{}, many-rows-huge", c.kind);
